@@ -7,7 +7,9 @@ package runner
 import (
 	"encoding/json"
 	"fmt"
+	"google.golang.org/protobuf/internal/strs"
 	"os"
+	"reflect"
 	"strings"
 
 	"google.golang.org/protobuf/proto"
@@ -126,6 +128,47 @@ func run(c *core.Ctx) {
 				twin.CompareWire(c, tw, in, nm)
 			})
 			c.DistinctN(int64(nw))
+			// generated getters, called on a freshly decoded message BEFORE any reflective access
+			// (lazy fields are decoded by the getter itself)
+			for ri := range recs {
+				in := recs[ri].B
+				c.Eval(1)
+				c.Guard(func() string { return "getters " + name + " wire=" + recs[ri].Name }, func() {
+					g := tw.Leg.MT.New()
+					if err := (proto.UnmarshalOptions{AllowPartial: true}).Unmarshal(in, g.Interface()); err != nil {
+						return
+					}
+					d, err := tw.Dyn.Unmarshal(in, proto.UnmarshalOptions{AllowPartial: true})
+					if err != nil {
+						return
+					}
+					gv := reflect.ValueOf(g.Interface())
+					for i := 0; i < md.Fields().Len(); i++ {
+						fd := md.Fields().Get(i)
+						if fd.Message() == nil || fd.IsList() || fd.IsMap() {
+							continue
+						}
+						gm := gv.MethodByName("Get" + strs.GoCamelCase(string(fd.Name())))
+						if !gm.IsValid() || gm.Type().NumIn() != 0 || gm.Type().NumOut() != 1 {
+							continue
+						}
+						out := gm.Call(nil)[0]
+						has := d.Has(fd)
+						if out.Kind() != reflect.Ptr {
+							continue
+						}
+						if out.IsNil() == has {
+							c.Violation(fmt.Sprintf("generated getter Get%s returns nil=%v but the field is populated=%v after decoding: type=%s (%s) wire=%s", strs.GoCamelCase(string(fd.Name())), out.IsNil(), has, name, e.Level, recs[ri].Name), nil)
+							continue
+						}
+						if has {
+							if sub, ok := out.Interface().(proto.Message); ok && !proto.Equal(sub, d.Get(fd).Message().Interface()) {
+								c.Violation(fmt.Sprintf("generated getter Get%s returns other content than dynamicpb decodes: type=%s (%s) wire=%s", strs.GoCamelCase(string(fd.Name())), name, e.Level, recs[ri].Name), nil)
+							}
+						}
+					}
+				})
+			}
 		}
 	}
 	c.Extra("generated_packages", len(entries))
